@@ -146,20 +146,6 @@ func specsC03(tier string) []seqmc.Spec {
 			cfg.ops = append(cfg.ops, atomic("t1", "k", ts, 1, ts))
 		}
 		cfg.ops = append(cfg.ops, upd("t2", "x", 1, 1), updO("t1", "o", "x", 1, 1))
-		// one relative path OBJECT ("s") sent under two prefixes, back to back or not
-		for _, pv := range []struct {
-			pre string
-			v   int64
-		}{{"i1", 1}, {"i2", 1}, {"i2", 2}} {
-			cfg.ops = append(cfg.ops, op{kind: "upd", target: "t1", ts: pv.v, prefix: ps(pv.pre), ups: []updSpec{{ps("s"), pv.v}}, sharedPath: true})
-		}
-		// a leaf whose path has an element SPELLED like the wildcard (a list entry
-		// keyed by "*"): legal in an update path, stored, queried and announced
-		// like any other leaf
-		cfg.ops = append(cfg.ops, upd("t1", "w/*/v", 1, 1), upd("t1", "w/*/v", 2, 2))
-		// an update BELOW an existing leaf (x, or the atomic group k): refused,
-		// nothing stored, nothing evicted, nothing announced
-		cfg.ops = append(cfg.ops, upd("t1", "x/y", 3, 1), upd("t1", "k/m/z", 3, 1))
 		// decimals that differ only beyond float32 resolution, different precision
 		cfg.ops = append(cfg.ops, upd("t1", "dec", 1, 1001), upd("t1", "dec", 2, 1002), upd("t1", "dec", 3, 1001))
 		// the same number in another arm of the value oneof, same timestamp as an int update
@@ -196,6 +182,30 @@ func specsC03(tier string) []seqmc.Spec {
 		}
 		cfg.ops = append(cfg.ops, del("t1", "s", 2), del("t1", "*", 4))
 		out = append(out, mkSpec(cfg, 40))
+	}
+	// unusual shapes on a small core alphabet (their own spec, so that the main
+	// alphabets keep their size): one relative path OBJECT sent under two
+	// prefixes; a leaf whose path has an element SPELLED like the wildcard (a
+	// list entry keyed by "*"); updates BELOW an existing leaf and below an
+	// atomic group (refused: nothing stored, evicted or announced)
+	for _, ev := range []bool{true, false} {
+		cfg := &specCfg{name: fmt.Sprintf("unusual shapes (shared path objects, '*'-named elements, updates below a leaf), eventDriven=%v", ev), targets: []string{"t1"}, eventDriven: ev,
+			oracles: oset("errclass", "state", "feed", "replica", "caller", "twin", "remove")}
+		cfg.ops = append(cfg.ops, upd("t1", "x", 1, 1), upd("t1", "x", 2, 2), atomic("t1", "k", 1, 1, 1), del("t1", "x", 3), del("t1", "*", 3), del("t1", "w", 3), del("t1", "w/*", 3),
+			life("reset", "t1"), life("remove", "t1"), life("add", "t1"))
+		for _, pv := range []struct {
+			pre string
+			v   int64
+		}{{"i1", 1}, {"i2", 1}, {"i2", 2}} {
+			cfg.ops = append(cfg.ops, op{kind: "upd", target: "t1", ts: pv.v, prefix: ps(pv.pre), ups: []updSpec{{ps("s"), pv.v}}, sharedPath: true})
+		}
+		cfg.ops = append(cfg.ops, upd("t1", "w/*/v", 1, 1), upd("t1", "w/*/v", 2, 2), upd("t1", "w/a/v", 1, 1))
+		cfg.ops = append(cfg.ops, upd("t1", "x/y", 3, 1), upd("t1", "k/m/z", 3, 1))
+		d := 4
+		if tier == "thorough" {
+			d = 5
+		}
+		out = append(out, mkSpec(cfg, d))
 	}
 	// a cache told not to export some metadata entries (WithExcludedMeta): whatever
 	// happens to their leaves, the feed replays to what queries return
